@@ -124,6 +124,10 @@ func VerifStmtItems(r Response) []string {
 	return append([]string(nil), s.sqlItems...)
 }
 
+// VerifStmtCounter returns the session's statement-id counter (the id the next
+// COM_STMT_PREPARE will hand out): hidden state the future of a history depends on.
+func VerifStmtCounter(se *SessionExecutor) uint32 { return se.stmtID }
+
 // VerifStmtIDs lists the open statement handles of the session.
 func VerifStmtIDs(se *SessionExecutor) []uint32 {
 	ids := make([]uint32, 0, len(se.stmts))
